@@ -83,10 +83,14 @@ class _TabulationCutoff(object):
       raise ConfigParserException("'{cutoff}', '{nr}' and '{dr}' cannot all be spcified in [Tabulation] section of potential definition.".format(**self._template_dict))
     elif nr and dr:
       # Set cutoff
-      cutoff = (nr-1)*dr      
+      cutoff = (nr-1)*dr
+      if math.isinf(cutoff):
+        raise ConfigParserException("'{nr}' and '{dr}' in [Tabulation] section of potential definition give a '{cutoff}' that is not a finite number.".format(**self._template_dict))
     elif cutoff and dr:
       # Set nr
       nsteps = cutoff/dr
+      if math.isinf(nsteps):
+        raise ConfigParserException("'{dr}' in [Tabulation] section of potential definition is too small for the '{cutoff}' specified.".format(**self._template_dict))
       # cutoff/dr can fall just short of a whole number through floating point round-off
       # (e.g. 0.3/0.1 == 2.9999999999999996), which would lose the final row.
       if abs(nsteps - round(nsteps)) <= 1e-9 * max(1.0, abs(nsteps)):
